@@ -61,10 +61,12 @@ class Mod:
         self.path = path
         self.src = src
         self.tree = _Normalise().visit(ast.parse(src, filename=path))
+        self.digest = hashlib.sha256(src.encode()).hexdigest()[:16]
+
+    def set_parents(self):
         for parent in ast.walk(self.tree):
             for child in ast.iter_child_nodes(parent):
                 child._parent = parent
-        self.digest = hashlib.sha256(src.encode()).hexdigest()[:16]
 
 
 class Func:
@@ -178,6 +180,16 @@ class Model:
                 self.mods[name] = Mod(name, path, src)
             except SyntaxError as e:
                 raise AnalysisError('cannot parse %s: %s' % (path, e))
+        # behaviour-preserving pre-pass: renamed / newly extracted private helpers (sa/inline.py)
+        from .inline import Inliner
+        self.prepass_log = []
+        if os.environ.get('SA_NOINLINE') != '1':
+            try:
+                self.prepass_log = Inliner({n: m.tree for n, m in self.mods.items()}).run()
+            except RecursionError:      # pragma: no cover
+                raise AnalysisError('inliner recursion')
+        for mod in self.mods.values():
+            mod.set_parents()
         for name, mod in self.mods.items():
             self.consts[name] = []
             for st in mod.tree.body:
